@@ -266,6 +266,9 @@ def main(modname, argv=None):
     budget_items = 0
     vacuous_items = []
     notes = {}
+    if os.environ.get("VERIF_DEBUG"):
+        for r in sorted(results, key=lambda r: -r["wall_s"])[:12]:
+            print("DEBUG item wall", r["wall_s"], "paths", r["paths"], "budget", r["budget_hit"], json.dumps(r["item"], default=str)[:200])
     for r in results:
         for k in agg:
             agg[k] += r[k]
